@@ -184,13 +184,13 @@ class Pipeline:
                         vt = vocab.vt_for(addr, c.get("fnames", ()), extra=c.get("extra_decl"))
                         # cells the source semantics does not name (locals, parameters of functions outside the vocabulary):
                         # they need memory, are never observed; sizes come from the layout
-                        for v in o["vars"]:
-                            n = v["name"]
-                            if n in vt or n not in addr or v["def"] is not None or v["mem"] == "Dummy":
+                        for hv in o["vars"]:
+                            n = hv["name"]
+                            if n in vt or n not in addr or hv["def"] is not None or hv["mem"] == "Dummy":
                                 continue
-                            t = v["type"]
-                            if v["size"] > 1:
-                                vt[n] = dict(kind="a", w=8 if t == "CharPtr" else 16, sg=False, n=v["size"], addr=addr[n], io=False, hidden=True)
+                            t = hv["type"]
+                            if hv["size"] > 1:
+                                vt[n] = dict(kind="a", w=8 if t == "CharPtr" else 16, sg=False, n=hv["size"], addr=addr[n], io=False, hidden=True)
                             else:
                                 vt[n] = dict(kind="p" if t in ("CharPtr", "CharPtrPtr", "ShortPtr") else "s", w=16 if t == "Short" else 8, sg=False, n=1, addr=addr[n], io=False, hidden=True)
                         regions = regs
@@ -223,7 +223,7 @@ class Pipeline:
             obsn = c.get("obs") or [n for n in vt if n not in ("X", "Y") and (n in vocab.DECL or n in c.get("obs_extra", ())) and not vt[n].get("rom") and not vt[n].get("hidden")]
             maxlen = max(len(v["code"]) for v in uniq)
             tcases.append(dict(id=c["id"], vt=vt, fs=vocab.fs_for(c.get("fnames", ())), body=c.get("body") or [], fuel=fuel, obs=obsn,
-                               regions=regions, variants=uniq, tmp=link.TMP_ADDR, prefix=bool(c.get("prefix", False)), sem=bool(sem and c.get("body") is not None),
+                               regions=regions, variants=uniq, tmp=link.TMP_ADDR, prefix=bool(c.get("prefix", False)), cycdiff=int(c.get("cycdiff", -1)), sem=bool(sem and c.get("body") is not None),
                                pair=bool(pair and len(uniq) > 1), inputs=[dict(inp=i) for i in inputs], _maxlen=maxlen, _src=c["variants"][0]["src"], _fam=c["fam"]))
             if len(self.samples) < 6 and (st["programs"] % 97 == 1):
                 self.samples.append(dict(id=c["id"], fam=c["fam"], src=c["variants"][0]["src"], input=inputs[0],
